@@ -124,8 +124,8 @@ theorem Inv.call_sound {μt ρt} {m : MapSt} (h : Inv c μt ρt m) (x : X) (ok :
   · rename_i hs
     simp only [Bool.and_eq_true, List.isEmpty_iff] at hs
     obtain ⟨e1, e2⟩ := h.empty_state hs.1
-    refine ⟨?_, size_toE _ _⟩
-    rw [ideal_toE]
+    refine ⟨?_, by rw [(foldE_spec c.sem c.σ _).2]; exact size_toE _ _⟩
+    rw [(foldE_spec c.sem c.σ _).1, ideal_toE]
     exact X.val_congr _ _ _ _ (fun n s => (e1 n s).symm) (fun x => (e2 x).symm) x
   · exact h.eval_sound x ok hwf hacc
 
